@@ -22,17 +22,20 @@ def prebuild(repo):
 
 
 def post(recs, merged):
+    """offline trace checker + observations.  Gaps in the records (a worker that died inside a case loses the
+    records of that case) are a harness failure only when no violation explains them."""
     counts = merged["counts"]
+    harness = []
     if counts.get("send_refused_ordinary", 0):
-        raise runner.Harness("Send refused %d ordinary workload values: the reference sequences are not what the "
-                             "workload intended" % counts["send_refused_ordinary"])
+        harness.append("Send refused %d ordinary workload values: the reference sequences are not what the "
+                       "workload intended" % counts["send_refused_ordinary"])
     if counts.get("record_fault_setup_failed", 0):
-        raise runner.Harness("record-level fault cases could not locate the records on the wire")
+        harness.append("record-level fault cases could not locate the records on the wire")
     res = c13_trace.check_records(recs)
     if res["malformed"]:
-        raise runner.Harness("malformed trace: " + res["malformed"][0])
+        harness.append("malformed trace: " + res["malformed"][0])
     if res["disagreements"]:
-        raise runner.Harness("C++ oracle and offline trace checker disagree: " + res["disagreements"][0])
+        harness.append("C++ oracle and offline trace checker disagree: " + res["disagreements"][0])
     merged["obs"]["traces_checked_offline"] = res["checked"]
     merged["obs"]["traces_by_clause"] = res["by_judge"]
     # size limit of Send as observed: per class.mode the longest accepted and the shortest refused value (base-62 digits on the wire)
@@ -46,9 +49,13 @@ def post(recs, merged):
         elif d["min_refused_digits"] is None or r["digits"] < d["min_refused_digits"]:
             d["min_refused_digits"] = r["digits"]
     merged["obs"]["send_size_limit"] = lim
-    for k, d in lim.items():
+    for k, d in sorted(lim.items()):
         if d["min_refused_digits"] is None or d["max_accepted_digits"] == 0:
-            raise runner.Harness("size-limit probes of %s saw only one outcome: %r" % (k, d))
+            harness.append("size-limit probes of %s saw only one outcome: %r" % (k, d))
+    if harness and not merged["viols"] and not res["violations"]:
+        raise runner.Harness(harness[0])
+    if harness:
+        merged["obs"]["harness_remarks"] = harness[:5]
     return res["violations"]
 
 
